@@ -167,6 +167,17 @@ CLAIMED["C18"] = dict(
     note="Trusted: reference graph built from the recipe; supply clause only asserted where the documented preconditions hold (flow "
          "controllers / heat consumers no bridges, pressure-controller direction irrelevant).",
     ref="DESIGN.md 4/C18")
+CLAIMED["C15"] = dict(
+    technique="round-trip property-based testing over the four storage paths with an own table / fluid / std-type comparison and a pipeflow on the loaded net",
+    text="Exploration: generated hydraulic and heating nets with every component type, decorated with None / string names, extra columns, "
+         "non-contiguous labels, user-defined fluid properties of four classes, generated pump types, user options, a ConstControl with "
+         "DFData and optionally results, plus multinets with a P2G controller, are written and read through JSON string, JSON file, "
+         "encrypted JSON and pickle. Oracles: nets_equal, an own comparison of every table (values, dtypes, index dtype, columns), fluid and "
+         "standard-type fingerprints evaluated on a grid, component list, sector, name, user options, converged flag, and a pipeflow on the "
+         "loaded net.",
+    note="Trusted: JSON keeps 15 decimal places (pandas / pandapower encoder) - JSON paths compared with 1e-15 abs + 1e-14 rel, pickle exactly. "
+         "Known finding: inf (default max_m_stored_kg) becomes NaN in JSON.",
+    ref="DESIGN.md 4/C15")
 NOT_YET = {}
 
 def main():
